@@ -744,6 +744,14 @@ class MailboxWorld:
             return d2b({"pake_v1": sp.start().hex()}).hex()
         if k == "pakebad":
             return d2b({"not_pake": "x"}).hex()
+        if k == "pakeinv":
+            # parses as {"pake_v1": hex} but is nothing SPAKE2 accepts: not a group element / wrong length, by turns
+            self._pakeinv = getattr(self, "_pakeinv", 0) + 1
+            return d2b({"pake_v1": [(b"S" + b"\xff" * 32).hex(), "00", (b"S" + b"\x01" * 31).hex()][self._pakeinv % 3]}).hex()
+        if k == "junk" and sym.get("pt") == "p":
+            # junk under the `pake` phase: not JSON / not UTF-8 / not an object / pake_v1 not hex / not a string, by turns
+            self._junkp = getattr(self, "_junkp", 0) + 1
+            return [b"\xff\x00not json", b"not json at all", b"[1, 2]", b"5", b'{"pake_v1": "zz"}', b'{"pake_v1": 5}', b""][self._junkp % 7].hex()
         if k == "enc":
             from nacl.secret import SecretBox
             from nacl import utils
